@@ -724,9 +724,15 @@ func (r *c10Run) exchange(a *c10Assoc, mk func() []byte, rspType uint8, limit ti
 	before := a.got(rspType)
 	r.send(a, mk())
 	dl := time.Now().Add(limit)
+	next := time.Now().Add(1500 * time.Millisecond)
 	for time.Now().Before(dl) {
 		if a.got(rspType) > before {
 			return true
+		}
+		// setup and heartbeat requests may be repeated (a repeated release would be a new first datagram)
+		if rspType != message.MsgTypeAssociationReleaseResponse && time.Now().After(next) {
+			r.send(a, mk())
+			next = time.Now().Add(1500 * time.Millisecond)
 		}
 		time.Sleep(2 * time.Millisecond)
 	}
@@ -884,7 +890,11 @@ func (r *c10Run) finishNode() c10Obs {
 			}
 			if touched[i] {
 				// the same peer associates afresh
-				ok := r.exchange(a, c10Setup, message.MsgTypeAssociationSetupResponse, 3*time.Second)
+				limit := 8 * time.Second
+				if ao.InMap {
+					limit = time.Second // a stale entry: handleNewPeers drops the datagram, nothing will come
+				}
+				ok := r.exchange(a, c10Setup, message.MsgTypeAssociationSetupResponse, limit)
 				ao.FreshSetup = &ok
 			}
 		}
